@@ -205,13 +205,17 @@ package blob
 // is the EDS position of its first non-padding share: row rowIndex, column start + (its offset in the
 // row's shares) - whatever padding, other blobs of the namespace or earlier rows came before it.
 //@ func (*Service).retrieve
-//@   property C11
+//@   property C11 C12
 //@   noframe
+//@   effect $RetrieveFailed := err != nil && !is(err, ErrBlobNotFound)
 //@   requires s != nil && sharesParser != nil
 //@   ensures err == nil ==> result0 != nil && result1 != nil
 //@   ensures err != nil ==> result0 == nil && result1 == nil
 //@   param .headerGetter: ensures $result1 == nil ==> $result0 != nil && $result0.DAH != nil
 //@   callpre parser).set: $arg1 == rowIndex*len(header.DAH.RowRoots) + index && $arg2 == appShares
+// (C12: the proof handed out with a blob consists of the proofs of the rows the blob occupies: whenever a
+// new row is entered with no blob in progress, no proof of an earlier row is carried along)
+//@   loop 2: invariant (sharesParser.index == 0 && sharesParser.length == 0 && len(sharesParser.shares) == 0) ==> len(proofs) == 0
 //@   loop 3: invariant 0 <= index - deref(row.Proof).start && index - deref(row.Proof).start <= len(row.Shares)
 //@   loop 3: invariant len(appShares) == len(row.Shares) - (index - deref(row.Proof).start)
 //@   loop 3: invariant len(appShares) > 0 ==> appShares == row.Shares[index - deref(row.Proof).start:]
@@ -236,3 +240,14 @@ package blob
 //@   property C11 C12
 //@   requires blob != nil
 //@   ensures result <==> bytesEq(blob.Commitment, commitment)
+
+// C11 / C20: listing one namespace at a height. Only "no blob of this namespace in the block" is an empty
+// success; every other failure of the retrieval - also one that looks like a cancellation or a timeout
+// while the caller is still there - is the caller's failure, so that a subscription retries the height
+// instead of emitting it without its blobs. The retrieval is for the given height and namespace.
+//@ func (*Service).getBlobs
+//@   property C11 C20
+//@   noframe
+//@   havoc $RetrieveFailed
+//@   callpre Service).retrieve: $arg2 == header.Height() && $arg3 == namespace
+//@   ensures err == nil ==> !$RetrieveFailed
